@@ -128,10 +128,13 @@ Definition parse_core (t : bytes) : option core :=
 (* generated from the Go source on every run (tools/gen -> Gen/Tables.v) *)
 Definition normalizePrereleaseType_table : list (bytes * Z) :=
   Eval cbv delta [Verif.Gen.Tables.pypi_normalizePrereleaseType] in Verif.Gen.Tables.pypi_normalizePrereleaseType.
+(* the switch's default branch, also generated *)
+Definition pre_type_default : Z :=
+  Eval cbv delta [Verif.Gen.Tables.pypi_normalizePrereleaseType_default] in Verif.Gen.Tables.pypi_normalizePrereleaseType_default.
 Definition pre_type (m : bytes) : Z :=
   match lookup (to_lower m) normalizePrereleaseType_table with
   | Some k => k
-  | None => 0%Z
+  | None => pre_type_default
   end.
 
 (* vDevOnly := prerelease == "" && postrelease == -1 && dev != -1 ; a dev-only version sorts first *)
